@@ -177,11 +177,16 @@ func (prop c16) Execute(sc *sim.Scenario) *sim.Outcome {
 	var fwds []*fwdRec
 	swapBetween := false
 
-	checkPointers := func(where string) bool {
-		w2 := fc.Weights()
-		if len(w2) != 2 || w2[0].Value != ptr[0] || w2[1].Value != ptr[1] {
-			out.Fail("weights-pointers", "%s: Weights() returned different addresses than before", where)
-			return false
+	// reRead: call Weights() again (only at the operator's explicit "weights"
+	// steps and at the end — an implementation may react to the call itself,
+	// so the harness must not issue it on its own after every step)
+	checkPointers := func(where string, reRead bool) bool {
+		if reRead {
+			w2 := fc.Weights()
+			if len(w2) != 2 || w2[0].Value != ptr[0] || w2[1].Value != ptr[1] {
+				out.Fail("weights-pointers", "%s: Weights() returned different addresses than before", where)
+				return false
+			}
 		}
 		if *ptr[0] != cur[0].t || *ptr[1] != cur[1].t {
 			out.Fail("weights-pointers", "%s: the tensors behind the Weights() pointers are not the ones last stored there", where)
@@ -244,7 +249,7 @@ func (prop c16) Execute(sc *sim.Scenario) *sim.Outcome {
 		}
 		switch st.Op {
 		case "weights":
-			if !checkPointers(where) {
+			if !checkPointers(where, true) {
 				return fin()
 			}
 		case "swap":
@@ -266,7 +271,7 @@ func (prop c16) Execute(sc *sim.Scenario) *sim.Outcome {
 					break
 				}
 			}
-			if !checkPointers(where) {
+			if !checkPointers(where, false) {
 				return fin()
 			}
 		case "forward":
@@ -344,7 +349,7 @@ func (prop c16) Execute(sc *sim.Scenario) *sim.Outcome {
 				return out
 			}
 			fwds[st.Out] = f
-			if !checkPointers(where) {
+			if !checkPointers(where, false) {
 				return fin()
 			}
 		case "backprop":
@@ -470,7 +475,7 @@ func (prop c16) Execute(sc *sim.Scenario) *sim.Outcome {
 			return out
 		}
 	}
-	if !checkGrads("end of history") || !checkPointers("end of history") {
+	if !checkGrads("end of history") || !checkPointers("end of history", true) {
 		return fin()
 	}
 	out.Nontrivial = swapBetween
